@@ -220,7 +220,7 @@ def shard(ctx):
     def oracle(case):
         check(ctx, case)
 
-    ctx.run_hypothesis(comp.cases(name_pool=NAME_POOLS), oracle, ctx.scale(1600, 30000))
+    ctx.run_hypothesis(comp.cases(name_pool=NAME_POOLS), oracle, ctx.scale(4800, 40000))
 
 
 def replay(ctx, case):
